@@ -84,8 +84,18 @@ def random_c08(rng, n):
         else:
             pos = sorted(set(rng.randrange(len(m) + 1) for _ in range(rng.randint(2, 6))) | {0, len(m)})
             out.append({"op": "sha", "msg": m, "pos": pos})
-    for _ in range(n):
+    prev = None
+    for k in range(n):
         key = rbytes(rng, rlen(rng, 140))
+        if prev is not None and k % 3 == 1 and len(prev) >= 2:
+            # consecutive calls under nearly equal keys (same length, one byte of the first / second half or the last byte differs):
+            # "for every key" includes the key used right after a similar one
+            key = list(prev)
+            j = rng.choice([len(key) - 1, rng.randrange(len(key) // 2, len(key)), rng.randrange(0, max(1, len(key) // 2))])
+            key[j] ^= 1 << rng.randrange(8)
+        elif k % 3 == 0:
+            key = rbytes(rng, rng.choice([32, 32, 16, 64, 20]))
+        prev = key
         msg = rbytes(rng, rlen(rng, 200))
         tag = list(pyhmac.new(bytes(key), bytes(msg), hashlib.sha256).digest())   # input manufacture only, not the oracle
         cands = [tag]
